@@ -203,16 +203,14 @@ def isSpace (c : Char) : Bool :=
 
 def isTerm (c : Char) : Bool := c == ',' || c == '}' || c == ']' || isSpace c
 
-/-- after an opening quote: does `(?:[^"\\]|\\.)*"` match?  (`.` does not match a newline) -/
-def litCloses : Str → Bool
-  | [] => false
-  | c :: cs =>
-    if c = '"' then true
-    else if c = '\\' then
-      match cs with
-      | [] => false
-      | e :: cs' => if e = '\n' then false else litCloses cs'
-    else litCloses cs
+/-- after an opening quote: does `(?:[^"\\]|\\.)*"` match?  (`esc`: the previous character was an unescaped backslash;
+`.` does not match a newline) -/
+def litClosesAux : Bool → Str → Bool
+  | _, [] => false
+  | true, c :: cs => if c = '\n' then false else litClosesAux false cs
+  | false, c :: cs => if c = '"' then true else if c = '\\' then litClosesAux true cs else litClosesAux false cs
+
+def litCloses (cs : Str) : Bool := litClosesAux false cs
 
 /-- after the zeros: end of text or a terminator -/
 def afterZeros : Str → Bool
@@ -277,44 +275,58 @@ def consFst (c : Char) (r : Option (Str × Str)) : Option (Str × Str) :=
   | some (s, rest) => some (c :: s, rest)
   | none => none
 
-/-- the inside of a string literal after the opening quote → (decoded string, text after the closing quote).
-A lone surrogate escape has no `Char` and yields `none` (outside the model). Raw control characters are rejected
-(`json.loads` is strict). -/
-def unesc : Str → Option (Str × Str)
+/-- second half of a surrogate pair: `\uXXXX` with a low surrogate; anything else would leave a lone surrogate, which has
+no `Char` (outside the model) -/
+def lowEsc (hi : Nat) : Str → Option (Char × Str)
+  | x :: y :: a :: b :: c :: d :: cs3 =>
+    if x = '\\' ∧ y = 'u' then
+      match hex4Val a b c d with
+      | none => none
+      | some lo =>
+        if 0xdc00 ≤ lo ∧ lo < 0xe000 then some (Char.ofNat (0x10000 + (hi - 0xd800) * 1024 + (lo - 0xdc00)), cs3)
+        else none
+    else none
+  | _ => none
+
+/-- after `\u` -/
+def uEsc : Str → Option (Char × Str)
+  | a :: b :: c :: d :: cs2 =>
+    match hex4Val a b c d with
+    | none => none
+    | some hi =>
+      if 0xd800 ≤ hi ∧ hi < 0xdc00 then lowEsc hi cs2
+      else if 0xdc00 ≤ hi ∧ hi < 0xe000 then none
+      else some (Char.ofNat hi, cs2)
+  | _ => none
+
+/-- one character or one escape sequence at the head of a literal body (the head is not the closing quote).
+Raw control characters are rejected (`json.loads` is strict). -/
+def escStep : Str → Option (Char × Str)
   | [] => none
   | c :: cs =>
-    if c = '"' then some ([], cs)
-    else if c = '\\' then
+    if c = '\\' then
       match cs with
       | [] => none
       | e :: cs1 =>
-        if e = 'u' then
-          match cs1 with
-          | a :: b :: c2 :: d :: cs2 =>
-            match hex4Val a b c2 d with
-            | none => none
-            | some hi =>
-              if 0xd800 ≤ hi ∧ hi < 0xdc00 then
-                match cs2 with
-                | x :: y :: a' :: b' :: c' :: d' :: cs3 =>
-                  if x = '\\' ∧ y = 'u' then
-                    match hex4Val a' b' c' d' with
-                    | none => none
-                    | some lo =>
-                      if 0xdc00 ≤ lo ∧ lo < 0xe000 then
-                        consFst (Char.ofNat (0x10000 + (hi - 0xd800) * 1024 + (lo - 0xdc00))) (unesc cs3)
-                      else none
-                  else none
-                | _ => none
-              else if 0xdc00 ≤ hi ∧ hi < 0xe000 then none
-              else consFst (Char.ofNat hi) (unesc cs2)
-          | _ => none
-        else
-          match simpleEsc e with
-          | some ch => consFst ch (unesc cs1)
+        if e = 'u' then uEsc cs1
+        else match simpleEsc e with
+          | some ch => some (ch, cs1)
           | none => none
     else if c.toNat < 0x20 then none
-    else consFst c (unesc cs)
+    else some (c, cs)
+
+def unescF : Nat → Str → Option (Str × Str)
+  | 0, _ => none
+  | _ + 1, [] => none
+  | f + 1, c :: cs =>
+    if c = '"' then some ([], cs)
+    else match escStep (c :: cs) with
+      | none => none
+      | some (ch, rest) => consFst ch (unescF f rest)
+
+/-- the inside of a string literal after the opening quote → (decoded string, text after the closing quote);
+every step consumes at least one character, so the length is enough fuel -/
+def unesc (cs : Str) : Option (Str × Str) := unescF cs.length cs
 
 def isNumChar (c : Char) : Bool := isDigit c || c == '-' || c == '+' || c == '.' || c == 'e' || c == 'E'
 
